@@ -409,10 +409,10 @@ pub fn c01(ctx: &mut Ctx) {
             c.uri = format!("{}{}x{}", p, if p.ends_with('/') { "" } else { "/" }, q);
             jobs.push(job(c, Expect::Refuse(Some("SignatureDoesNotMatch")), "c01-path", must));
         }
-        // query: add a parameter
-        {
+        // query: add a parameter — of any name but the exact `X-Amz-Signature` it is part of what is signed
+        for extra in ["zz=1", "x-amz-signature=zz", "X-AMZ-SIGNATURE=00", "X-Amz-Signature%20=1", "=", "zz"] {
             let mut c = s.case.clone();
-            c.uri = if c.uri.contains('?') { format!("{}&zz=1", c.uri) } else { format!("{}?zz=1", c.uri) };
+            c.uri = if c.uri.contains('?') { format!("{}&{}", c.uri, extra) } else { format!("{}?{}", c.uri, extra) };
             jobs.push(job(c, Expect::Refuse(Some("SignatureDoesNotMatch")), "c01-query", must));
         }
         // a signed header value
